@@ -45,8 +45,13 @@ for n in names:
             subprocess.run(["git", "-C", "/repo", "checkout", "--", "."], check=True)
     res[n] = out
     print(n, {k: (v["exit"], v["first_replay_kind"]) for k, v in out.items()}, flush=True)
-if not only:
-    json.dump({"when": time.strftime("%Y-%m-%d %H:%M:%S"), "repo_head": subprocess.run(["git", "-C", "/repo", "rev-parse", "--short", "HEAD"], capture_output=True, text=True).stdout.strip(),
-               "results": res}, open(os.path.join(VERIF, "seeded", "RESULTS.json"), "w"), indent=1)
+rpath = os.path.join(VERIF, "seeded", "RESULTS.json")
+allres = res
+if only and os.path.exists(rpath):
+    # a partial re-run (after a check was strengthened) replaces the entries of the seeds it ran
+    allres = json.load(open(rpath)).get("results", {})
+    allres.update(res)
+json.dump({"when": time.strftime("%Y-%m-%d %H:%M:%S"), "repo_head": subprocess.run(["git", "-C", "/repo", "rev-parse", "--short", "HEAD"], capture_output=True, text=True).stdout.strip(),
+           "verif_seed": os.environ.get("VERIF_SEED", "0"), "results": allres}, open(rpath, "w"), indent=1)
 missed = [n for n, o in res.items() if not json.load(open(os.path.join(VERIF, "seeded", n, "meta.json"))).get("superseded") and ( o[n.split("-")[0]]["exit"] != 1 or not o[n.split("-")[0]]["first_replay_kind"] or "no-failing" in str(o[n.split("-")[0]]["first_replay_kind"]))]
 print("seeds:", len(res), "not reported with a failing input by their own property's check:", missed)
